@@ -274,7 +274,82 @@ def class_scenario(key, seed):
     return _finish(key, env, log, sink, nfan)
 
 
-FAMILIES = (('hub', hub_scenario, 8), ('split', split_scenario, 4), ('switch', switch_scenario, 4), ('class', class_scenario, 4))
+# ---- BEGIN b-fixwfq: WFQ over string class ids with NON-INTEGER weights (family `wfqw`) ----
+WFQW_WEIGHTS = [0.1, 0.2, 0.3, 0.7, 1.1, 0.6]      # the demo's table: sums of three or more of them depend on the order of addition
+WFQW_MORE = [0.6, 1.1, 0.7, 0.1, 0.2, 0.3, 1.3, 2.5, 0.05, 3.3, 1e-3, 7.0, 0.9]
+
+
+def _wfqw_run(key, env, sched, lines, nfan, out):
+    """run the program; the trace is what it prints (the scheduler was built with `debug=True`: the library itself prints the
+    finish stamp of every arrival and every departure) and the departures its `out` sees"""
+    import contextlib, io
+    buf = io.StringIO()
+    with contextlib.redirect_stdout(buf):
+        env.run(until=10000)
+    lines += buf.getvalue().splitlines()
+    per_instant = {}
+    for e in out:
+        per_instant[e[0]] = per_instant.get(e[0], 0) + 1
+    STATS[key] = (nfan[0], max(per_instant.values(), default=0))
+    TRACES[key] = json.loads(json.dumps([out, None, lines]))
+    return hashlib.sha256(repr((out, lines)).encode()).hexdigest()
+
+
+def wfqw_scenario(key, seed):
+    """`WFQ` whose classes are *strings* and whose weights are *not whole numbers* (0.6, 1.1, 0.7 ...): three sources put bursts of
+    several flows at instants of a small grid, so that three and more classes are backlogged when virtual time is advanced.
+    `update_vtime` adds the weights of the backlogged classes; C03 ("under any string-hash seed ... an identical trace") needs
+    that sum - hence virtual time, every finish stamp the scheduler prints in debug mode, and the order in which near-ties are
+    served - not to depend on the iteration order of a set of strings.  Scenario 0 is the fixed program of
+    findings/demos/C03_wfq_float_weights_hashseed.py (its departures part under PYTHONHASHSEED 0 / 1 on the tree before the
+    `fix:` commit "WFQ sums the weights of the active classes in table order"); the others are drawn from the seed: string flow
+    ids served directly, or int flow ids behind a `flow2class` into string classes."""
+    k = int(key.split('-')[2])
+    fixed = k == 0
+    rng = random.Random(75) if fixed else random.Random(f'netfan-wfqw-{seed}')
+    env = Environment()
+    out, lines, nfan = [], [], [0]
+    if fixed:
+        names = ['voice', 'video', 'data', 'bulk', 'ctrl', 'alpha', 'bravo']
+        flows = rng.sample(names, 5)
+        w = {f: rng.choice(WFQW_WEIGHTS) for f in flows}
+        sched = WFQ(env, 8000.0, w, debug=True)
+        pick = lambda: rng.choice(flows)
+        rounds, gaps, sizes, bursts = 15, [0, 0, 0.5, 1, 0.125, 0.3], [100, 500, 1500, 300], [1, 2, 3]
+    else:
+        classes = rng.sample(NAMES, rng.randint(3, 7))
+        table = WFQW_WEIGHTS if rng.random() < 0.5 else WFQW_MORE
+        w = {c: rng.choice(table) for c in classes}
+        if rng.random() < 0.5:
+            sched = WFQ(env, rng.choice([8000.0, 64000.0, 1e6]), w, debug=True)
+            pick = lambda: rng.choice(classes)
+        else:
+            nflows = len(classes) * 2
+            sched = WFQ(env, rng.choice([8000.0, 64000.0, 1e6]), w, flow2class=lambda f: classes[f % len(classes)], debug=True)
+            pick = lambda: rng.randrange(nflows)
+        rounds, gaps, sizes, bursts = rng.randint(6, 15), rng.choice([[0, 0, 0.5, 1, 0.125, 0.3], GRID, [0, 0.1, 0.3, 0.7]]), [100, 500, 1500, 300], [1, 2, 3]
+
+    class Rec:
+        def put(self, p): out.append((bits(env.now), '<wfq out>', p.src, p.flow_id, p.packet_id, p.size))
+    sched.out = Rec()
+    sched.element_id = 'wfqw'              # the constructor draws a uuid4, which the debug lines would print
+
+    def src(j):
+        pid = 1000 * j
+        for _ in range(rounds):
+            yield env.timeout(rng.choice(gaps))
+            for _ in range(rng.choice(bursts)):
+                pid += 1
+                nfan[0] += 1
+                sched.put(Packet(env.now, rng.choice(sizes), pid, src=f'src{j}', flow_id=pick()))
+    for j in range(3):
+        env.process(src(j + 1))
+    return _wfqw_run(key, env, sched, lines, nfan, out)
+# ---- END b-fixwfq ----
+
+
+FAMILIES = (('hub', hub_scenario, 8), ('split', split_scenario, 4), ('switch', switch_scenario, 4), ('class', class_scenario, 4),
+            ('wfqw', wfqw_scenario, 12))
 
 
 def all_digests(seed):
@@ -292,7 +367,8 @@ def describe(key):
     return {'hub': 'a Hub broadcasting to 4-6 string-named stations (ports given / not given), several senders in the same instants',
             'split': 'Splitter/NSplitter fan-out into string-keyed FIBDemux tables, a FlowDemux and wires',
             'switch': 'a Hub feeding Fair/SimplePacketSwitches whose weight and forwarding tables are keyed by string flow ids',
-            'class': 'two schedulers with string class ids behind flow2class, fed in the same instant through a Splitter'}[fam]
+            'class': 'two schedulers with string class ids behind flow2class, fed in the same instant through a Splitter',
+            'wfqw': 'a WFQ scheduler (debug output on) whose classes are strings and whose weights are not whole numbers, three bursty sources'}[fam]
 
 
 def main(seed):
@@ -319,6 +395,9 @@ def first_difference(a, b):
         y = b[0][i] if i < len(b[0]) else None
         if x != y:
             return f'shared log entry {i}: ' + (show(x) if x else '<end>') + ' here, ' + (show(y) if y else '<end>') + ' there'
+    if len(a) > 2 and len(b) > 2 and a[2] != b[2]:          # b-fixwfq: the lines the program printed (family `wfqw`)
+        i = next((i for i, (x, y) in enumerate(zip(a[2], b[2])) if x != y), min(len(a[2]), len(b[2])))
+        return f'printed line {i}: `{a[2][i] if i < len(a[2]) else "<end>"}` here, `{b[2][i] if i < len(b[2]) else "<end>"}` there'
     return 'the PacketSink tables differ' if a[1] != b[1] else 'no difference when executed alone'
 
 
